@@ -333,6 +333,7 @@ ASSUMPTIONS = [
     "model choice: mergeRanks(coord_style='absolute') adds payloads of equal remaining coordinates",
     "model choice: elements of intermediate tensors that were populated count as present even when zero",
     "values are formal indeterminates: equality is polynomial identity over Z, valid for exact arithmetic only",
+    "coordinate arithmetic on concrete numbers follows Python (true division is IEEE double division); symbolic (occupancy) coordinates are divided in the reals",
     "specification dimension is enumerated (bounded family), only the tensor contents are solver-quantified",
 ]
 
@@ -356,6 +357,11 @@ def unbound_kind(spec, name, context=""):
         root, k, at = name[:-1].upper(), int(name[-1]), lo.index(name.upper())
         if any(root + str(j) in lo and lo.index(root + str(j)) < at for j in range(k)):
             return "upper-level-coord-before-its-loop"
+    if name.isupper() and "shape=[" in context:
+        for ranks in part.values():
+            for key in (ranks or {}):
+                if key.strip().startswith("(") and name == "".join(x.strip() for x in key.strip()[1:-1].split(",")):
+                    return "flattened-rank-as-extent"
     if name.upper() in lo and name.islower():
         for ranks in part.values():
             for key in (ranks or {}):
@@ -417,6 +423,10 @@ def work_equiv(spec, metrics=False, twin=True, targets=None, total=False):
         return _work_equiv(spec, metrics, twin, targets, total)
     except Budget:
         return {"name": spec["name"], "status": "inconclusive", "why": "job budget of %d s exceeded" % budget}
+    except Exception as ex:   # noqa  (an alarm delivered inside a z3 ctypes callback surfaces as ctypes.ArgumentError("... Budget"))
+        if budget and "Budget" in str(ex):
+            return {"name": spec["name"], "status": "inconclusive", "why": "job budget of %d s exceeded" % budget}
+        raise
     finally:
         DEFAULT_TIMEOUT_MS[0] = old_t
         if budget:
